@@ -462,6 +462,9 @@ pub fn run_case(c: &J) -> J {
         Err(e) => json!({"result": "err", "err": e}),
         Ok(()) => {
             let bytes = sink.contents();
+            if let Some(path) = c["dump"].as_str() {
+                std::fs::write(path, &bytes).expect("dump");
+            }
             if c["kind"].as_str().unwrap() == "bw" { observe_bw(c, &mut ctx, bytes) } else { observe_bb(c, &mut ctx, bytes) }
         }
     }
